@@ -9,6 +9,7 @@ IsEvent(op) == l <= Len(TraceLog) /\ TraceLog[l].op = op /\ l' = l + 1
 TBegin   == IsEvent("begin")   /\ UNCHANGED dvars
 TStart   == IsEvent("start")   /\ DStart(E.n, E.disk)
 TScan    == IsEvent("scan")    /\ DScan(E.vec, E.disk, E.sized)
+TRescan  == IsEvent("rescan")  /\ DRescan(E.vec, E.disk, E.sized)
 TScanF   == IsEvent("scanf")   /\ DScanFaulty(E.vec, E.disk, E.sized)
 TCopy    == IsEvent("copy")    /\ DCopy(E.vec, E.disk, E.zero, E.matchable, E.usable, E.srcSame, E.outside)
 TCopyF   == IsEvent("copyf")   /\ DCopyFaulty(E.vec, E.disk, E.srcSame)
@@ -23,7 +24,7 @@ TTool    == IsEvent("toolrun") /\ DToolRun(E.status, E.eqB, E.X, E.wholeChunks, 
 TCrash   == IsEvent("killed")  /\ DCrash
 
 Init == DInit /\ l = 1
-Next == TBegin \/ TStart \/ TScan \/ TScanF \/ TCopy \/ TCopyF \/ TFindM \/ TReset \/ TRound \/ TRoundF \/ TSetBase \/ TSameBase \/ TFinish \/ TTool \/ TCrash
+Next == TBegin \/ TStart \/ TScan \/ TRescan \/ TScanF \/ TCopy \/ TCopyF \/ TFindM \/ TReset \/ TRound \/ TRoundF \/ TSetBase \/ TSameBase \/ TFinish \/ TTool \/ TCrash
 Spec == Init /\ [][Next]_tvars
 Accepted == /\ PrintT(<<"MATCHED", TLCGet("stats").diameter - 1, Len(TraceLog)>>)
             /\ TLCGet("stats").diameter - 1 = Len(TraceLog)
